@@ -66,14 +66,14 @@ type world struct {
 
 func (w *world) newNode() (*instance.Instance, *capNet, *nodeTimer) {
 	net, tm := &capNet{}, &nodeTimer{}
-	cfg := &qbft.Config{Signer: w.c.Signer(w.me), SigningPK: w.c.Share(w.me).SharePubKey, Domain: w.c.Domain, ValueCheckF: qnet.ValueCheck,
+	cfg := &qbft.Config{Signer: w.c.Signer(w.me), SigningPK: w.c.Share(w.me).SharePubKey, Domain: w.c.Domain, ValueCheckF: w.c.ValueCheckFor(w.me),
 		ProposerF: specqbft.RoundRobinProposer, Network: net, Timer: tm, SignatureVerification: true}
 	return instance.NewInstance(cfg, w.c.Share(w.me), w.c.Identifier, w.c.Height), net, tm
 }
 
 func (w *world) newSpec() (*specqbft.Instance, *capNet, *specTimer) {
 	net, tm := &capNet{}, &specTimer{}
-	cfg := &specqbft.Config{Signer: w.c.Signer(w.me), SigningPK: w.c.Share(w.me).SharePubKey, Domain: w.c.Domain, ValueCheckF: qnet.ValueCheck,
+	cfg := &specqbft.Config{Signer: w.c.Signer(w.me), SigningPK: w.c.Share(w.me).SharePubKey, Domain: w.c.Domain, ValueCheckF: w.c.ValueCheckFor(w.me),
 		ProposerF: specqbft.RoundRobinProposer, Network: net, Timer: tm}
 	return specqbft.NewInstance(cfg, w.c.Share(w.me), w.c.Identifier, w.c.Height), net, tm
 }
@@ -242,20 +242,39 @@ func (w *world) honestPool(maxRound specqbft.Round, k int, stop func() bool) []*
 		byz       spectypes.OperatorID
 		k         int
 		pathsOnly bool // contributes deep paths, not letters
+		picky     bool // this operator's value check rejects C; the leader of round 1 resp. 2 starts with C
 	}
 	// (all correct with one more deviation: a round that fails after somebody prepared, so that
 	// prepared round-changes meet leaders with another start value)
-	srcs := []src{{0, k, false}, {0, k + 1, true}}
+	srcs := []src{{0, k, false, false}, {0, k + 1, true, false}, {0, k, false, true}}
 	for _, r := range []specqbft.Round{1, 2} {
 		if l := w.c.Leader(r); l != w.me && w.c.N == 4 {
-			srcs = append(srcs, src{l, k + 1, false})
+			srcs = append(srcs, src{l, k + 1, false, false})
 		}
 	}
 	for _, sr := range srcs {
 		base := &qnet.Cfg{N: w.c.N, Height: w.c.Height, Byz: sr.byz, MaxRound: maxRound, Role: w.c.Role}
 		base.Init()
 		k := sr.k
-		for _, st := range qnet.StartAssignments(base.Honest) {
+		assignments := qnet.StartAssignments(base.Honest)
+		if sr.picky {
+			// values the other operators accept and this one's own check rejects (operators' value
+			// checks differ: each consults its own records): traffic, prepared round-changes and
+			// justified re-proposals of such a value
+			base.Picky = w.me
+			assignments = nil
+			for _, r := range []specqbft.Round{1, 2} {
+				if l := w.c.Leader(r); l != w.me {
+					st := map[spectypes.OperatorID]byte{}
+					for _, h := range base.Honest {
+						st[h] = 'A'
+					}
+					st[l] = 'C'
+					assignments = append(assignments, st)
+				}
+			}
+		}
+		for _, st := range assignments {
 			c := *base
 			c.Start = st
 			pool := qnet.NewPool()
@@ -564,6 +583,7 @@ type result struct {
 	Macros, MacroDepth  int
 	MacroStates         int
 	MacroSteps          int
+	LadderSteps         int
 }
 
 func explore(r *ev.Run, w *world, start []byte, alpha []letter, maxTransitions int, tag string) result {
@@ -755,6 +775,47 @@ func explore(r *ev.Run, w *world, start []byte, alpha []letter, maxTransitions i
 			}
 		}
 	}
+	// phase F: timeout ladder. From the first 300 honest-reachable states of phase A, consecutive round
+	// timeouts for as long as the node's instance processes events, i.e. up to and including the
+	// timeout that takes it to instance.CutoffRound, each step compared: the high rounds no message
+	// alphabet reaches. (From CutoffRound on the node deliberately stops the instance - a node-only
+	// feature the reference does not have; the comparison ends there.)
+	{
+		ladderFrom := all
+		if len(ladderFrom) > 300 { // breadth-first order: the start state, depth 1, the first of depth 2
+			ladderFrom = ladderFrom[:300]
+		}
+		for _, n := range ladderFrom {
+			if r.Expired() {
+				res.Complete = false
+				break
+			}
+			cur := w.clone(n.p)
+			names := append([]string{}, n.path...)
+			ids := append([]int32{}, n.ids...)
+			for cur.node.CanProcessMessages() {
+				names = append(names, "timeout")
+				ids = append(ids, -1)
+				wasDecided := cur.node.State.Decided
+				before := cur.node.State.Round
+				diff := w.step(cur, nil)
+				res.Transitions++
+				res.Hist["timeout-ladder step"]++
+				res.LadderSteps++
+				if diff != "" {
+					tagD := ""
+					if wasDecided && strings.HasPrefix(diff, "compaction changed") {
+						tagD = " (instance already decided)"
+					}
+					r.Violate("differs-from-spec: "+short(diff)+tagD, fmt.Sprintf("%s after the timeout of round %d (timeout ladder)", diff, before), "c06", w.artefact(tag, n.start0(), names, ids), diff, "identical observable behaviour")
+					break
+				}
+				if cur.node.State.Round == before {
+					break // (a decided or stopped instance does not move)
+				}
+			}
+		}
+	}
 	// phase E: class-level breadth-first search. A letter is "k messages of one content class from
 	// its k lowest-numbered signers" (k = 1..quorum), one aggregated message, or a timeout, so that a
 	// whole protocol phase (a prepare quorum, a commit quorum, a round-change quorum) is one step and
@@ -846,7 +907,7 @@ func main() {
 	exhaustive := true
 	var bounds []string
 	for _, j := range jobs {
-		c := &qnet.Cfg{N: j.n, Height: 1, MaxRound: j.maxRound, Role: spectypes.BNRoleAttester}
+		c := &qnet.Cfg{N: j.n, Height: 1, MaxRound: j.maxRound, Role: spectypes.BNRoleAttester, Picky: j.me}
 		c.Init()
 		w := &world{c: c, me: j.me, pool: qnet.NewPool()}
 		alpha := w.alphabet(j.maxRound, j.k, r.Expired)
@@ -868,7 +929,7 @@ func main() {
 			exhaustive = false
 			r.CapHit(fmt.Sprintf("%s: transition cap %d / deadline", tag, j.cap))
 		}
-		bounds = append(bounds, fmt.Sprintf("%s: alphabet=%d (honest %d) states=%d transitions=%d honest-BFS-depth-completed=%d states-with-all-mutants-applied=%d deep-paths=%d/%d new-states-on-deep-paths(all mutants applied)=%d class-level-BFS(letters=%d depth-completed=%d states=%d steps=%d) splices(states-after-timeout=%d continuations=%d automaton-states=%d cuts-complete-without-loss=%d levels=%d, <=1 lost burst) steps=%d complete=%v", tag, res.Alphabet, res.Base, res.States, res.Transitions, res.HonestDepth, res.MutantStatesCovered, res.DeepPaths, len(w.deepPaths), res.DeepStates, res.Macros, res.MacroDepth, res.MacroStates, res.MacroSteps, res.Splice.States, res.Splice.Suffixes, res.Splice.Nodes, res.Splice.NoLossComplete, res.Splice.Depth, res.Splice.Steps, res.Complete))
+		bounds = append(bounds, fmt.Sprintf("%s: alphabet=%d (honest %d) states=%d transitions=%d honest-BFS-depth-completed=%d states-with-all-mutants-applied=%d deep-paths=%d/%d new-states-on-deep-paths(all mutants applied)=%d timeout-ladder-steps=%d class-level-BFS(letters=%d depth-completed=%d states=%d steps=%d) splices(states-after-timeout=%d continuations=%d automaton-states=%d cuts-complete-without-loss=%d levels=%d, <=1 lost burst) steps=%d complete=%v", tag, res.Alphabet, res.Base, res.States, res.Transitions, res.HonestDepth, res.MutantStatesCovered, res.DeepPaths, len(w.deepPaths), res.DeepStates, res.LadderSteps, res.Macros, res.MacroDepth, res.MacroStates, res.MacroSteps, res.Splice.States, res.Splice.Suffixes, res.Splice.Nodes, res.Splice.NoLossComplete, res.Splice.Depth, res.Splice.Steps, res.Complete))
 	}
 	r.Set("traces_validated_against_impl", r.Get("transitions"))
 	r.Set("bounds", bounds)
@@ -880,6 +941,7 @@ func main() {
 		"every letter is applied in every product state reachable by honest letters; a state reached through one mutated letter is expanded with the honest letters only (at most one mutation per path); states deduplicated on the node state and the compacted node state; the reference is ssv-spec v0.3.7 qbft.Instance",
 		"aggregated commits are compared up to signer order (the node sorts signers)",
 		"deep paths: what this operator processed in every execution of the deviation-bounded multi-operator searches (all correct k and k+1 with ISOLATE/LOSE-BROADCAST only, silent leader of round 1 resp. 2), the product started with the value the operator had in that run",
+		"timeout ladder: from the first 300 states of the honest BFS (breadth-first order), consecutive timeouts until the node's CutoffRound (15) stops the instance (node-only feature, not compared beyond) or the round stops moving",
 		"class-level BFS: a letter is k messages of one content class from its k lowest-numbered signers (k<=quorum; the first variant of a signer represents it), an aggregated message or a timeout; every message inside a letter is compared; own state set",
 		"splices: (state after the 1st/2nd timeout of any recorded history) x (continuation of any recorded history after as many timeouts), at most one burst of consecutive messages lost (quick: of one type and round), memoised on (product state, state of the continuations' minimal automaton, burst used); histories without loss first")
 	r.Finish(exhaustive)
@@ -897,6 +959,7 @@ func replay(r *ev.Run) {
 		ev.Fatal("replay: artefact has no encoded steps (recorded by an older version: re-run the check)")
 	}
 	c := &qnet.Cfg{N: int(t["n"].(float64)), Height: specqbft.Height(t["height"].(float64)), MaxRound: 3, Role: spectypes.BNRoleAttester}
+	c.Picky = spectypes.OperatorID(t["operator"].(float64))
 	c.Init()
 	w := &world{c: c, me: spectypes.OperatorID(t["operator"].(float64)), pool: qnet.NewPool()}
 	start := byte('A')
